@@ -12,7 +12,7 @@ from . import c16 as _c16
 PROPERTY = 'C18'
 ISOLATE = False
 LEVEL = 'exploration'
-TIERS = {'quick': {'runs': 130, 'wall': 85, 'min_budget': 60}, 'thorough': {'runs': 20000, 'wall': 1500, 'min_budget': 200}}
+TIERS = {'quick': {'runs': 260, 'wall': 85, 'min_budget': 60}, 'thorough': {'runs': 30000, 'wall': 1500, 'min_budget': 200}}
 RULE = ('one run = one target (a proof module composed by the C02 composer, a shipped module, or a generated / shipped Metamath database) serialised to binary and pretty with a seeded '
         'optimise setting: once as reference in a pristine interpreter (hash seed 0, no history, no heap noise) and 3 times in interpreters with seeded hash seed, seeded heap-noise '
         'prelude and a seeded history of 0-4 earlier jobs in the same process (other modules/databases, the target object itself serialised 1-3 times, binary/pretty and optimise '
@@ -29,11 +29,13 @@ SHIPPED_MM = ['impreflex-compressed-goal.mm']
 
 def generate(rng, tier):
     r = rng.random()
-    if r < 0.45:
+    if r < 0.38:
         target = {'kind': 'module', 'compose': rng.getrandbits(48)}
-    elif r < 0.55:
+    elif r < 0.45:
+        target = {'kind': 'module', 'ties': {'n': rng.choice([2, 3, 5, 8]), 'salt': rng.randrange(1000)}}
+    elif r < 0.53:
         target = {'kind': 'module', 'shipped': rng.choice(SHIPPED_MODS)}
-    elif r < 0.83:
+    elif r < 0.76:
         target = {'kind': 'mm', 'gen_seed': rng.getrandbits(40)}
     elif r < 0.93:
         target = {'kind': 'k', 'k_seed': rng.getrandbits(40)}
@@ -87,6 +89,9 @@ def resolve(spec, ctx, cache):
         from . import c20 as _c20
         ksc = _c20.generate(_r.Random(spec['k_seed']), 'quick')
         ksc['faults'] = []
+        # as a serialisation target the whole trace should be built: every symbol functional (a non-functional substitution
+        # value is refused by the front end and build_pe stops there)
+        ksc['symbols'] = [dict(s, functional=True) for s in ksc['symbols']]
         out = {'kind': 'k', 'scenario': ksc}
     elif spec['kind'] == 'mm' and 'shipped_mm' in spec:
         import os
@@ -118,7 +123,7 @@ def execute(sc, ctx):
     out = Outcome()
     cache = {}
     CAP[0] = 20000 if sc.get('_tier') == 'thorough' else 2500
-    target = sc['target'] if ('recipe' in sc['target'] or 'text' in sc['target'] or 'scenario' in sc['target']) else resolve(sc['target'], ctx, cache)
+    target = sc['target'] if ('recipe' in sc['target'] or 'text' in sc['target'] or 'scenario' in sc['target'] or 'ties' in sc['target']) else resolve(sc['target'], ctx, cache)
     if target is None:
         out.refused = True
         out.event('target could not be composed')
